@@ -319,6 +319,18 @@ crate::harnesses! { REG;
     /// quick required | SW cofactor 4 (points of order two): double, neg, equality: ALL pairs, ALL rescalings
     #[unwind(12)]
     fn c03_sw_dbl_eq_cof4() { sw_double_neg_eq::<SwCof4>() }
+    /// thorough required | SW b = 0 (full 2-torsion, the order-two point (0, 0) has the coordinates of the stored identity): Projective +, +=, -: ALL ordered pairs, ALL rescalings
+    #[unwind(12)]
+    fn c03_sw_add_b0() { sw_add::<SwB0>() }
+    /// quick required | SW b = 0 (the order-two point (0, 0) vs the identity stored as (0, 0, infinity)): mixed addition Projective + Affine, +=, -, Affine + Projective: ALL ordered pairs, ALL rescalings
+    #[unwind(12)]
+    fn c03_sw_madd_b0() { sw_madd::<SwB0>() }
+    /// quick required | SW b = 0: Affine + Affine, Affine - Affine, -Affine, is_on_curve, is_zero, From<Affine>, into_affine: ALL pairs ((0, 0) and the identity included)
+    #[unwind(12)]
+    fn c03_sw_affine_b0() { sw_affine_ops::<SwB0>() }
+    /// quick required | SW b = 0: double, neg, equality (Projective == Projective, Projective == Affine with (0, 0) against the identity): ALL pairs, ALL rescalings
+    #[unwind(12)]
+    fn c03_sw_dbl_eq_b0() { sw_double_neg_eq::<SwB0>() }
     /// thorough attempt timeout=3000 | SW cofactor 4: normalize_batch and Sum over ALL vectors of 0, 1 and 2 points (any subset identities), ALL rescalings
     #[unwind(12)]
     fn c03_sw_batch_cof4() { sw_batch::<SwCof4, 0>(); sw_batch::<SwCof4, 1>(); sw_batch::<SwCof4, 2>() }
